@@ -950,7 +950,13 @@ func judgeDocLocal(d doc) docObs {
 	second := runImport(d, text, fn)
 	o.Same = second.text == imp.text && second.err == imp.err
 	if !o.Same {
-		j.fail("second-import-differs:"+d.Format, "importing the same document again gives different text")
+		if strings.Contains(second.err, "circular schema reference") {
+			// the same finding as a failing first import: kin-openapi's conversion rejects a recursive schema or
+			// not depending on the order in which it happens to visit its maps
+			j.fail("import-fails:"+d.Format+":circular-ref", "the second import of a document with a recursive schema fails (the first succeeded): "+firstLine(second.err))
+		} else {
+			j.fail("second-import-differs:"+d.Format, "importing the same document again gives different text")
+		}
 	}
 	return o
 }
